@@ -1,6 +1,7 @@
 """C06 — Cached builds never go stale."""
 import os, re, shutil
 import vlib, e2e
+import names_common
 
 THEOREMS = ["C06_memo_sound", "C06_noop_rebuild", "C06_key_input_injective", "C06_flags_covered",
             "C06_compile_key_unsound_refuted", "C06_compile_key_sound_without_literals"]
@@ -37,6 +38,79 @@ func init() { greetingText = "hello from the tagged file" }
 }
 
 
+
+def key_correspondence(res, garble, r, tier):
+    """addGarbleToHash (the content of every tool ID and of every package's GarbleActionID, i.e. what keys both
+    caches) against Model/Names.v add_garble_to_hash, on random configurations; then pairs of configurations
+    that differ in exactly one input must get different keys from the implementation."""
+    n = 60 if tier == "quick" else 400
+    def rnd_cfg():
+        k = r.random()
+        seedlen = 0 if k < 0.3 else (8 if k < 0.5 else r.randint(9, 24))
+        return {"literals": r.random() < 0.5, "tiny": r.random() < 0.5, "ctrlflow": r.random() < 0.3,
+                "seed": bytes(r.randrange(256) for _ in range(seedlen)),
+                "gogarble": r.choice(["*", "example.com/a", "example.com/a,b/*", "x"]),
+                "binary_id": bytes(r.randrange(256) for _ in range(15)),
+                "testobf": r.choice(["", "", "", "simple", "swap"])}
+    def req(h, c):
+        return {"op": "addgarble", "in": h.hex(), "seed": c["seed"].hex(), "literals": c["literals"], "tiny": c["tiny"], "ctrlflow": c["ctrlflow"],
+                "gogarble": c["gogarble"], "binary_id": c["binary_id"].hex(), "testobf": c["testobf"]}
+    def coq_cfg(c):
+        return ("{| c_literals := %s; c_tiny := %s; c_ctrlflow := %s; c_seed := %s; c_gogarble := %s; c_binary_id := %s; c_testobf := %s |}" % (
+            vlib.coq_bool(c["literals"]), vlib.coq_bool(c["tiny"]), vlib.coq_bool(c["ctrlflow"]), vlib.nlist(c["seed"]), vlib.nlist(c["gogarble"].encode()),
+            vlib.nlist(c["binary_id"]), vlib.nlist(c["testobf"].encode())))
+    orc = names_common.Oracle(garble)
+    cfgs = [(bytes(r.randrange(256) for _ in range(r.choice([15, 15, 32]))), rnd_cfg()) for _ in range(n)]
+    outs = orc.batch([req(h, c) for h, c in cfgs])
+    lits = ["(%s, %s, %s)" % (vlib.nlist(h), coq_cfg(c), vlib.nlist(bytes.fromhex(o["out"]))) for (h, c), o in zip(cfgs, outs)]
+    header = "From Verif Require Import Base.Bytes Base.Sha256 Model.Names.\nOpen Scope N_scope.\n"
+    bad = vlib.coq_eval_cases("c06key", header, "bytes * gcfg * bytes", lits, "(fun c => negb (beq (add_garble_to_hash (fst (fst c)) (snd (fst c))) (snd c)))", chunk=40)
+    # one-input-differs pairs on the implementation
+    pairs = []
+    for _ in range(n):
+        h, c = bytes(r.randrange(256) for _ in range(15)), rnd_cfg()
+        d = dict(c)
+        dim = r.choice(["literals", "tiny", "ctrlflow", "seed-tail", "seed-head", "seed-presence", "gogarble", "binary_id", "testobf", "action-id"])
+        h2 = h
+        if dim in ("literals", "tiny", "ctrlflow"):
+            d[dim] = not c[dim]
+        elif dim == "seed-tail":
+            base = c["seed"] if len(c["seed"]) > 8 else bytes(r.randrange(256) for _ in range(r.randint(9, 20)))
+            c = dict(c, seed=base)
+            d = dict(c, seed=base[:-1] + bytes([base[-1] ^ (1 + r.randrange(255))]))
+        elif dim == "seed-head":
+            base = c["seed"] if c["seed"] else bytes(r.randrange(256) for _ in range(8))
+            c = dict(c, seed=base)
+            d = dict(c, seed=bytes([base[0] ^ 1]) + base[1:])
+        elif dim == "seed-presence":
+            d["seed"] = b"" if c["seed"] else bytes(r.randrange(256) for _ in range(8))
+        elif dim == "gogarble":
+            d["gogarble"] = c["gogarble"] + "x"
+        elif dim == "binary_id":
+            d["binary_id"] = bytes([c["binary_id"][0] ^ 1]) + c["binary_id"][1:]
+        elif dim == "testobf":
+            d["testobf"] = "shuffle" if c["testobf"] != "shuffle" else "seed"
+        else:
+            h2 = bytes([h[0] ^ 1]) + h[1:]
+        pairs.append((dim, h, c, h2, d))
+    outs2 = orc.batch([req(h, c) for _, h, c, _, _ in pairs] + [req(h2, d) for _, _, _, h2, d in pairs])
+    hist = {}
+    for k, (dim, h, c, h2, d) in enumerate(pairs):
+        hist[dim] = hist.get(dim, 0) + 1
+        if outs2[k]["out"] == outs2[len(pairs) + k]["out"]:
+            show = lambda x: {kk: (vv.hex() if isinstance(vv, bytes) else vv) for kk, vv in x.items()}
+            res.violation("key-collision:" + dim, "two configurations that differ in %s get the same build hash from addGarbleToHash (so both caches would serve one's results for the other): "
+                          "%r vs %r" % (dim, show(c), show(d)), {"action_id": h.hex(), "action_id_2": h2.hex(), "config": show(c), "config_2": show(d), "dimension": dim})
+    res.cov["key_correspondence_cases"] = len(lits)
+    res.cov["key_pairs"] = hist
+    if bad and not any(v[0].startswith("key-collision") for v in res.violations):
+        h, c = cfgs[bad[0]]
+        res.violation("key-model", "addGarbleToHash differs from Model/Names.v add_garble_to_hash on %d of %d configurations, e.g. seed=%s literals=%s tiny=%s"
+                      % (len(bad), len(lits), c["seed"].hex(), c["literals"], c["tiny"]), {"action_id": h.hex(), "config": {k: (v.hex() if isinstance(v, bytes) else v) for k, v in c.items()}},
+                      found_input=False)
+    return len(lits) + len(pairs)
+
+
 def run(res, tier, seed, replay):
     r = vlib.rng(seed)
     ok, msg = vlib.run_translators()
@@ -51,6 +125,7 @@ def run(res, tier, seed, replay):
     except vlib.BuildError as e:
         res.violation("garble-build", "garble no longer builds: %s" % str(e)[-800:], {"error": str(e)}, found_input=False)
         return
+    key_cases = key_correspondence(res, garble, r, tier)
     proj = e2e.Project("c06", FILES, module="example.com/hist")
     shared = e2e.Caches("c06-shared")
     G = "example.com/hist"
@@ -67,6 +142,9 @@ def run(res, tier, seed, replay):
         ("ldflags-X-plain", [], ["-ldflags=-X=main.version=v2"], G, None),
         ("seedB", ["-seed=AAAAAAAAAAI"], [], G, None),
         ("ctrlflow", [], [], G, "ctrlflow"),
+        # two seeds longer than the 8 bytes garble warns about, equal in their first 8 bytes
+        ("seedLongA", ["-seed=AAECAwQFBgcI"], [], G, None),
+        ("seedLongB", ["-seed=AAECAwQFBgcJ"], [], G, None),
     ]
     if tier == "quick":
         keep = {"default", "default-again", "-literals", "F7-literals-then-ldflags-X", "edit-lib"}
@@ -115,7 +193,7 @@ def run(res, tier, seed, replay):
             if compiled:
                 res.violation("noop-recompiles", "rebuilding an already built configuration recompiles %r" % compiled[:5], {"files": FILES, "compiled": compiled})
     shared.remove()
-    res.cov["evaluations"] = builds
+    res.cov["evaluations"] = builds + key_cases
     res.cov["distinct_nontrivial"] = len(steps)
     res.cov["history_steps"] = [s[0] for s in steps]
     res.cov["rule"] = ("one history over shared GOCACHE/GARBLE_CACHE: default, -tiny, default again (must recompile nothing), -literals, -literals with a later "
